@@ -7,6 +7,7 @@ import itertools
 import json
 import os
 import re
+from fractions import Fraction
 
 import fw
 
@@ -31,6 +32,8 @@ ASSUMPTIONS = [
     'Unicode tables: Text.isSpace (29 code points) and Text.isWord (range table) are those of CPython 3.12 / Unicode 15.0; '
     'compared with re \\s, str.strip() and re \\w for every code point on every run (stream charclass, exhaustive)',
     'Lines contain no "\\n" (theorem C10.splitLines_no_newline): "." / "$" subtleties of re about a final newline never arise',
+    'Scan.classify instantiated with ExprParse.parseExpr is compared on lines without non-ASCII word characters only (ExprScan models '
+    'the ASCII part of \\w / \\d; Text.isWord / Scan.shape are exact for all of Unicode and are compared on every line)',
     'Expression text is opaque to C10: classify is parametric in parseExpr; leading_ws_irrelevant is conditional on the stated '
     'hypothesis about parseExpr (ignores leading blanks up to the error column)',
 ]
@@ -193,6 +196,57 @@ def expected_single_line_outcome(line, shape):
     else:
         stmt = {'include': {'includes': [{'url': shape['url'], 'system': True} if shape['system'] else {'url': shape['url']}]}}
     return ('ok', {'statements': [stmt]})
+
+
+def canon_expr(e):
+    """Implementation expression model -> protocol form (numbers as exact [num, den])."""
+    (k, v), = e.items()
+    if k == 'number':
+        fr = Fraction(v)
+        return {'number': [fr.numerator, fr.denominator]}
+    if k in ('string', 'variable'):
+        return {k: v}
+    if k == 'group':
+        return {'group': canon_expr(v)}
+    if k == 'unary':
+        return {'unary': {'expr': canon_expr(v['expr']), 'op': v['op']}}
+    if k == 'binary':
+        return {'binary': {'left': canon_expr(v['left']), 'op': v['op'], 'right': canon_expr(v['right'])}}
+    return {'function': {'args': [canon_expr(a) for a in v.get('args', [])], 'name': v['name']}}
+
+
+def round_numbers(e):
+    """Model expression (exact decimal value of each literal) -> each literal rounded to the double float(text) yields."""
+    if not isinstance(e, dict) or len(e) != 1:
+        return e
+    (k, v), = e.items()
+    if k == 'number':
+        fr = Fraction(v[0] / v[1]) if v[1] != 1 else Fraction(float(v[0]))
+        return {'number': [fr.numerator, fr.denominator]}
+    if k in ('string', 'variable'):
+        return e
+    if k == 'group':
+        return {'group': round_numbers(v)}
+    if k == 'unary':
+        return {'unary': {'expr': round_numbers(v['expr']), 'op': v['op']}}
+    if k == 'binary':
+        return {'binary': {'left': round_numbers(v['left']), 'op': v['op'], 'right': round_numbers(v['right'])}}
+    return {'function': {'args': [round_numbers(a) for a in v['args']], 'name': v['name']}}
+
+
+def expected_line(line, shape):
+    """The classified line (Line with parsed expressions, or error + column) from the implementation's own groups."""
+    kind = shape['kind']
+    etext = line if kind == 'expr' else shape.get('expr')
+    out = {k: v for k, v in shape.items() if k not in ('off', 'expr')}
+    if etext is not None:
+        res = run_expr(etext)
+        if res[0] == 'err':
+            return {'error': res[1], 'column': (0 if kind == 'expr' else shape['off']) + res[2]}
+        if res[0] == 'exc':
+            return {'exc': res[1]}
+        out['expr'] = canon_expr(res[1])
+    return out
 
 
 def jsonable(x):
@@ -718,6 +772,7 @@ CLASSIFY_BASE = [
     "include 'a' 'b'", "include '\\\\\\''", "include <a'b>",
     'f(x)', 'a + b', "'str'", '(a)', '?', 'a b', '', 'x', 'if', 'else', 'function', 'include', 'jumpif', 'for', 'a.b = 1', '[a b] = 1', 'a : b',
 ]
+_R_WORD = re.compile(r'\w')
 MUT_CHARS = [' ', ':', '=', '(', ')', "'", ',', '.', 'x', '\\', '#', '<', '>', '\t', '1', '\xe9', '\u3000', '\r']
 
 
@@ -770,13 +825,24 @@ def stream_classify(ctx):
                                 'parse_script([line]) outcome vs the outcome composed from the model shape; non-trivial = not an expression statement')
     cases = [(ln, src) for ln, src in classify_cases(ctx, rng) if '\n' not in ln]
     resps = ctx.driver.batch([{'op': 'classify', 'line': ln} for ln, _ in cases])
-    for (line, src), model in zip(cases, resps):
+    fulls = ctx.driver.batch([{'op': 'classifyFull', 'line': ln} for ln, _ in cases])
+    for (line, src), model, full in zip(cases, resps, fulls):
         shape, out = impl_shape(line)
         if shape is None:
             st.case(line, nontrivial=False, tags=['not-a-logical-line'])
             continue
         st.case(line, nontrivial=model.get('kind') != 'expr', tags=['kind:' + str(model.get('kind')), 'src:' + src, 'out:' + out[0]])
         ctx.compare('classify', line, jsonable(shape), model)
+        # Scan.classify instantiated with ExprParse.parseExpr: the Line with parsed expressions / the re-based error column
+        # (ExprScan models the ASCII part of \w and \d only: lines with a non-ASCII word character are outside its domain)
+        if any(ord(ch) > 127 and _R_WORD.match(ch) for ch in line):
+            st.hist['full:skipped-nonascii-word'] = st.hist.get('full:skipped-nonascii-word', 0) + 1
+        else:
+            try:
+                full_r = dict(full, expr=round_numbers(full['expr'])) if 'expr' in full else full
+            except (OverflowError, ZeroDivisionError):
+                full_r = full
+            ctx.compare('classify', {'line': line, 'what': 'Scan.classify ExprParse.parseExpr'}, jsonable(expected_line(line, shape)), full_r)
         if 'kind' in model:
             ctx.compare('classify', {'line': line, 'what': 'parse_script([line]) outcome'}, jsonable(out),
                         jsonable(expected_single_line_outcome(line, model)))
